@@ -204,10 +204,14 @@ package sarama
 //@   ensures[sub] err == nil ==> sub != nil && fresh(sub) && sub.remaining() == length && offset + length <= pd.remaining()
 //@   modifies nothing
 
+// A-peek: the bytes of a decoder never change, so what a peek sees is a function of the decoder, the bytes left
+// and the offset (peek8); stated as an assumed effect of the interface method (realDecoder never writes rd.raw).
+//@ ghost func peek8(packetDecoder, int, int) int8
 //@ func (pd packetDecoder) peekInt8(offset) props C10
 //@   returns v, err
 //@   requires pd.remaining() >= 0 && 0 <= offset && offset <= 4294967296
 //@   ensures[state] pd.remaining() == old(pd.remaining())
+//@   effect err == nil ==> v == peek8(pd, pd.remaining(), offset)
 //@   modifies nothing
 
 //@ func (pd packetDecoder) push(in) props C10
@@ -1957,3 +1961,32 @@ package sarama
 //@   callsite ConsumerGroupHandler.Cleanup: modifies s.cleaned
 //@   callsite offsetManager.Close: requires[final_commit_after_cleanup] withCleanup ==> s.cleaned
 //@   nosafety
+
+// ---------------------------------------------------------------------------------------------
+// Termination of the fetch-response record loop (C10): decoding makes progress. A message set is only ever
+// decoded when the magic byte at its start is below 2 (Records.setTypeFromMagic chose it by peeking the same
+// byte), and then a successful, complete (not partial, not overflow) decode consumes at least one message.
+
+//@ func magicValue(pd) props C10
+//@   returns r, err
+//@   requires pd.remaining() >= 0
+//@   ensures[state] pd.remaining() == old(pd.remaining())
+//@   ensures[peeked] err == nil ==> r == peek8(pd, pd.remaining(), magicOffset)
+//@   decoder_frame
+
+//@ func (ms *MessageSet) decode(pd) props C10
+//@   returns err
+//@   requires pd.remaining() >= 0
+//@   ensures[state] 0 <= pd.remaining() && pd.remaining() <= old(pd.remaining())
+//@   ensures[progress] err == nil && !ms.PartialTrailingMessage && !ms.OverflowMessage && old(pd.remaining()) > 0 && peek8(pd, old(pd.remaining()), magicOffset) < 2 ==> pd.remaining() < old(pd.remaining())
+//@   loop 0: invariant 0 <= pd.remaining() && pd.remaining() <= old(pd.remaining())
+//@   loop 0: invariant[progress] (pd.remaining() < old(pd.remaining()) || (pd.remaining() == old(pd.remaining()) && len(ms.Messages) == 0))
+//@   loop 0: decreases pd.remaining()
+//@   decoder_frame
+
+//@ func (msb *MessageBlock) decode(pd) props C10
+//@   returns err
+//@   requires pd.remaining() >= 0
+//@   ensures[state] 0 <= pd.remaining() && pd.remaining() <= old(pd.remaining())
+//@   ensures[progress] err == nil ==> pd.remaining() <= old(pd.remaining()) - 8
+//@   decoder_frame
